@@ -281,3 +281,19 @@ Example C08_bounds_example :
   map {| ranges := [(2, 0, 3); (5, 2, 1)]; inverted := false |} 2 1 -
   map {| ranges := [(2, 0, 3); (5, 2, 1)]; inverted := false |} 2 (-1) = max_new [(2, 0, 3); (5, 2, 1)].
 Proof. split; [unfold wf_map; simpl; lia | vm_compute; reflexivity]. Qed.
+
+(* a Mapping without mirrors is the composition of its maps (C08_mapping_is_composition), so for well-formed maps it is
+   monotone in the position and in the side, and never leaves the document's non-negative positions *)
+Theorem C08_mapping_monotone : forall ms p q a,
+  Forall wf_map ms -> 0 <= p -> p <= q -> fold_maps ms p a <= fold_maps ms q a.
+Proof. exact fold_maps_mono. Qed.
+Print Assumptions C08_mapping_monotone.
+
+Theorem C08_mapping_assoc_monotone : forall ms p a b,
+  Forall wf_map ms -> 0 <= p -> a <= b -> fold_maps ms p a <= fold_maps ms p b.
+Proof. exact fold_maps_assoc_mono. Qed.
+Print Assumptions C08_mapping_assoc_monotone.
+
+Theorem C08_mapping_nonnegative : forall ms p a, Forall wf_map ms -> 0 <= p -> 0 <= fold_maps ms p a.
+Proof. exact fold_maps_nonneg. Qed.
+Print Assumptions C08_mapping_nonnegative.
